@@ -84,10 +84,11 @@ def render_decls(decls, lay, depth, out):
             out.append("%sproto %s%s" % (pad, d["name"], sm))
             out.append("")
         elif k == "import":
+            # "spell": how the path is written ("./", "././" ...); the file meant stays d["file"]
             if d.get("as"):
-                out.append('%simport %s "%s.bitproto"%s' % (pad, d["as"], d["file"], sm))
+                out.append('%simport %s "%s%s.bitproto"%s' % (pad, d["as"], d.get("spell", ""), d["file"], sm))
             else:
-                out.append('%simport "%s.bitproto"%s' % (pad, d["file"], sm))
+                out.append('%simport "%s%s.bitproto"%s' % (pad, d.get("spell", ""), d["file"], sm))
             out.append("")
         elif k == "option":
             out.append("%soption %s = %s%s" % (pad, d["name"], expr_text(d["v"]), sm))
